@@ -281,9 +281,6 @@ Section WithH.
       end.
 
   (* ---------- batch insert ---------- *)
-  Definition pop_last {A} (l : list A) : option (list A * A) :=
-    match rev l with [] => None | x :: r => Some (rev r, x) end.
-
   (* BreadthFirstIterator(...).next(): first leaf in breadth-first order *)
   Fixpoint bfs_first_leaf (fuel : nat) (s : mblob) (queue queued : list N) : res leaf :=
     match fuel with
